@@ -34,6 +34,9 @@ type op struct {
 	extra int
 	ies   []*entities.InfoElement
 	vals  [][]int
+	// a template add whose elements carry values: refused by the copying paths
+	valued bool
+	valsT  [][]int
 }
 
 func obs(s entities.Set, ev vt.Ev) vt.Ev {
@@ -69,8 +72,10 @@ func apply(w *vt.Writer, s entities.Set, o op, forcePath string) {
 		for i, ie := range o.ies {
 			var e entities.InfoElementWithValue
 			var err error
-			if isTmpl {
+			if isTmpl && !o.valued {
 				e, err = entities.DecodeAndCreateInfoElementWithValue(ie, nil)
+			} else if isTmpl {
+				e, err = gen.Elem(ie, o.valsT[i])
 			} else {
 				e, err = gen.Elem(ie, o.vals[i])
 			}
@@ -83,6 +88,9 @@ func apply(w *vt.Writer, s entities.Set, o op, forcePath string) {
 		if forcePath != "" {
 			path = forcePath
 		}
+		if o.valued && path == "adopt" {
+			path = "copy" // the slice-adopting path does not look at values; only the refusing paths are exercised
+		}
 		before := int(s.GetNumberOfRecords())
 		var err error
 		switch path {
@@ -93,7 +101,7 @@ func apply(w *vt.Writer, s entities.Set, o op, forcePath string) {
 		default:
 			err = s.AddRecordV2(elems, uint16(o.id))
 		}
-		ev := vt.Ev{"e": "Add", "path": path, "id": o.id, "fields": absv.FieldsOf(o.ies), "vals": o.vals, "err": err != nil}
+		ev := vt.Ev{"e": "Add", "path": path, "id": o.id, "fields": absv.FieldsOf(o.ies), "vals": o.vals, "err": err != nil, "valued": o.valued && isTmpl}
 		if int(s.GetNumberOfRecords()) == before+1 {
 			r := s.GetRecords()[before]
 			ev["newlen"] = r.GetRecordLength()
@@ -133,7 +141,7 @@ func main() {
 		}
 	}
 	for _, ie := range custom {
-		if ie.Len <= 64 || ie.Len == entities.VariableLength {
+		if ie.Len <= 64 || ie.Len == entities.VariableLength || ie.DataType == entities.String {
 			pool = append(pool, ie)
 		}
 	}
@@ -192,6 +200,27 @@ func main() {
 				}
 				if curType == "template" {
 					o.vals = [][]int{}
+					if len(o.ies) > 0 && r.Intn(5) == 0 { // a template record whose elements carry (non-empty) values: refused
+						o.valued = true
+						for _, ie := range o.ies {
+							v := gen.Abs(r, ie, 20)
+							nonEmpty := false
+							for _, b := range v {
+								if b != 0 {
+									nonEmpty = true
+								}
+							}
+							if !nonEmpty {
+								v = append(v[:0:0], v...)
+								if len(v) == 0 {
+									v = []int{65}
+								} else {
+									v[len(v)-1] = 1
+								}
+							}
+							o.valsT = append(o.valsT, v)
+						}
+					}
 				}
 				ops = append(ops, o)
 			case x < 80:
